@@ -26,7 +26,7 @@ static std::string rep(const std::string &s, size_t n)
     return r;
 }
 
-// {REP:text:count} {NEST:open:close:count} {CHAIN:n} {PAIRWISE:n} {RING:n} {BOM} {NUL} + the named tokens of tok()
+// {REP:text:count} {NEST:open:close:count} {CHAIN:n} {DOUBLING:n} {PAIRWISE:n} {RING:n} {BOM} {NUL} + the named tokens of tok()
 static std::string expand(std::string s, const std::string &chainEnd)
 {
     for (;;) {
@@ -67,6 +67,14 @@ static std::string expand(std::string s, const std::string &chainEnd)
         std::string r;
         for (size_t i = 1; i <= n; ++i) {
             r += "<units name='k" + std::to_string(i) + "'><unit units='" + (i < n ? "k" + std::to_string(i + 1) : chainEnd) + "'/></units>";
+        }
+        return r;
+    });
+    macro("DOUBLING", [&](size_t n) { // k_i = k_(i+1) . k_(i+1)^-1: every units is reached along 2^i paths
+        std::string r;
+        for (size_t i = 1; i <= n; ++i) {
+            std::string next = i < n ? "k" + std::to_string(i + 1) : chainEnd;
+            r += "<units name='k" + std::to_string(i) + "'><unit units='" + next + "'/><unit units='" + next + "' exponent='-1'/></units>";
         }
         return r;
     });
@@ -126,7 +134,7 @@ static std::string valid20(std::map<std::string, std::string> sl)
         eq2 = "";
     }
     std::string mathRoot = S("mathroot", "math");
-    std::string mathOpen = "<" + mathRoot + (S("mathns", MML).empty() ? "" : " xmlns='" + S("mathns", MML) + "'") + ">";
+    std::string mathOpen = "<" + mathRoot + (S("mathns", MML).empty() ? "" : " xmlns='" + S("mathns", MML) + "'") + (S("mathattrs", "").empty() ? "" : " " + S("mathattrs", "")) + ">";
     std::string mathClose = "</" + mathRoot + ">";
     std::string reset;
     if (S("reset", "no") == "yes") {
@@ -282,10 +290,16 @@ static void walkAst(const AnalyserEquationAstPtr &ast, size_t &count, int depth)
 static void pipelineDrv(const J &sc, Emitter &out)
 {
     std::string text = document(sc);
+    if (const char *dump = getenv("VERIF_DUMP_DOC")) { // debugging aid: the document of the (last) scenario
+        std::ofstream(dump) << text;
+    }
     bool strict = sc["mode"].str() == "strict";
     {
         J b = J::obj();
         b.set("e", "Begin").set("order", sc["order"]).set("mode", sc["mode"]).set("bytes", J(text.size())).set("digest", sha1ish(text));
+        if (sc.has("label")) {
+            b.set("label", sc["label"]);
+        }
         out.emit(b);
     }
     auto call = [&](const std::string &stage) {
